@@ -54,6 +54,13 @@ def gen_script(r, max_steps):
         elif p < 0.19:
             sc["steps"].append(["track_inputs"])
             tracked.extend(tys)
+        elif p < 0.215 and nadd:
+            # the Iterable of wires given to track_wires is a node HANDLE (it iterates over its output wires): one
+            # index per output
+            k = r.randrange(nadd)
+            outs_k = [w for w in wires if w[0][0] == "out" and w[0][1] == k]
+            sc["steps"].append(["track_node", k, len(outs_k)])
+            tracked.extend(w[1] for w in outs_k)
         elif p < 0.29 and tracked:
             i = r.randrange(len(tracked) + 2)
             sc["steps"].append(["untrack", i])
@@ -221,6 +228,7 @@ def run_script(ctx, sc, stratum="script"):
         return tuple(ref)
 
     NODES = {}
+    ALLNODES = {}
     uses = [0]
 
     def tw(ref):
@@ -299,6 +307,7 @@ def run_script(ctx, sc, stratum="script"):
             W[("out", k, j)] = (n.out(j), pn.out(j))
         if nout >= 1:
             NODES[("out", k, 0)] = n
+        ALLNODES[k] = n
         for pos, a in enumerate(args):
             if isinstance(a, int):
                 model[a] = ("out", k, pos)
@@ -334,6 +343,19 @@ def run_script(ctx, sc, stratum="script"):
             if idx != list(range(len(model), len(model) + len(st[1]))):
                 bad("track_wires-indices", si, list(range(len(model), len(model) + len(st[1]))), idx)
             model.extend(key(w) for w in st[1])
+        elif k == "track_node":
+            hn = ALLNODES.get(st[1])
+            if hn is None:
+                model.extend(("out", st[1], j) for j in range(st[2]))
+                for j in range(st[2]):
+                    td.track_wire(W[("out", st[1], j)][0])
+            else:
+                ctx.feat("feature:track_wires-node-handle")
+                ctx.feat(f"feature:track_wires-node-handle-{min(st[2], 3)}-outputs")
+                idx = td.track_wires(hn)
+                if idx != list(range(len(model), len(model) + st[2])):
+                    bad("track_wires-indices", si, list(range(len(model), len(model) + st[2])), idx)
+                model.extend(("out", st[1], j) for j in range(st[2]))
         elif k == "track_inputs":
             idx = td.track_inputs()
             if idx != list(range(len(model), len(model) + len(row))):
@@ -394,6 +416,7 @@ def run_script(ctx, sc, stratum="script"):
                         W[("out", kk, j)] = (n.out(j), pn.out(j))
                     if nout >= 1:
                         NODES[("out", kk, 0)] = n
+                    ALLNODES[kk] = n
                     for pos, a in enumerate(args):
                         if isinstance(a, int):
                             model[a] = ("out", kk, pos)
